@@ -133,6 +133,71 @@ macro_rules! with_pad {
 }
 
 // ---------------------------------------------------------------------------------------------
+// caller-supplied rank-2 closures (what a user of `*_with_backend` may legitimately write)
+
+use cipher::{BlockModeDecBackend, BlockModeDecClosure, BlockModeEncBackend, BlockModeEncClosure, StreamCipherBackend, StreamCipherClosure, crypto_common::BlockSizes};
+
+pub struct UserBlocks<'a, BS: BlockSizes> {
+    pub blocks: InOutBuf<'a, 'a, Array<u8, BS>>,
+    pub mode: u8,
+}
+impl<BS: BlockSizes> BlockSizeUser for UserBlocks<'_, BS> {
+    type BlockSize = BS;
+}
+impl<BS: BlockSizes> BlockModeEncClosure for UserBlocks<'_, BS> {
+    fn call<B: BlockModeEncBackend<BlockSize = BS>>(self, backend: &mut B) {
+        let (groups, tail) = self.blocks.into_chunks::<B::ParBlocksSize>();
+        for g in groups {
+            backend.encrypt_par_blocks(g);
+        }
+        if self.mode == 1 {
+            for b in tail {
+                backend.encrypt_block(b);
+            }
+        } else if !tail.is_empty() {
+            backend.encrypt_tail_blocks(tail);
+        }
+    }
+}
+impl<BS: BlockSizes> BlockModeDecClosure for UserBlocks<'_, BS> {
+    fn call<B: BlockModeDecBackend<BlockSize = BS>>(self, backend: &mut B) {
+        let (groups, tail) = self.blocks.into_chunks::<B::ParBlocksSize>();
+        for g in groups {
+            backend.decrypt_par_blocks(g);
+        }
+        if self.mode == 1 {
+            for b in tail {
+                backend.decrypt_block(b);
+            }
+        } else if !tail.is_empty() {
+            backend.decrypt_tail_blocks(tail);
+        }
+    }
+}
+pub struct UserKeystream<'a, BS: BlockSizes> {
+    pub blocks: &'a mut [Array<u8, BS>],
+    pub mode: u8,
+}
+impl<BS: BlockSizes> BlockSizeUser for UserKeystream<'_, BS> {
+    type BlockSize = BS;
+}
+impl<BS: BlockSizes> StreamCipherClosure for UserKeystream<'_, BS> {
+    fn call<B: StreamCipherBackend<BlockSize = BS>>(self, backend: &mut B) {
+        let (groups, tail) = Array::<Array<u8, BS>, B::ParBlocksSize>::slice_as_chunks_mut(self.blocks);
+        for g in groups {
+            backend.gen_par_ks_blocks(g);
+        }
+        if self.mode == 1 {
+            for b in tail {
+                backend.gen_ks_block(b);
+            }
+        } else if !tail.is_empty() {
+            backend.gen_tail_blocks(tail);
+        }
+    }
+}
+
+// ---------------------------------------------------------------------------------------------
 // block modes
 
 pub struct EncAd<M>(pub M);
@@ -168,6 +233,10 @@ macro_rules! impl_block_mode {
                         Err(_) => Err(()),
                     },
                 }
+            }
+            fn many_closure(&mut self, mode: u8, buf: &mut [u8]) {
+                let b = blocks_mut::<M::BlockSize>(buf);
+                self.0.encrypt_with_backend(UserBlocks { blocks: b.into(), mode });
             }
             fn iv_state(&self) -> Vec<u8> {
                 self.0.iv_state().to_vec()
@@ -236,6 +305,10 @@ macro_rules! impl_block_mode {
                         Err(_) => Err(()),
                     },
                 }
+            }
+            fn many_closure(&mut self, mode: u8, buf: &mut [u8]) {
+                let b = blocks_mut::<M::BlockSize>(buf);
+                self.0.decrypt_with_backend(UserBlocks { blocks: b.into(), mode });
             }
             fn iv_state(&self) -> Vec<u8> {
                 self.0.iv_state().to_vec()
@@ -392,6 +465,9 @@ macro_rules! impl_core {
             }
             fn write_blocks(&mut self, out: &mut [u8]) {
                 self.0.write_keystream_blocks(blocks_mut(out))
+            }
+            fn write_blocks_closure(&mut self, mode: u8, out: &mut [u8]) {
+                self.0.process_with_backend(UserKeystream { blocks: blocks_mut::<T::BlockSize>(out), mode });
             }
             fn partial(self: Box<Self>, k: Kind, inp: &[u8], out: &mut [u8]) -> R {
                 match k {
